@@ -1,6 +1,8 @@
 package main
 
 import (
+	"go/types"
+
 	"golang.org/x/tools/go/ssa"
 )
 
@@ -52,4 +54,155 @@ func (e *Engine) globalInitNonNil(g *ssa.Global) bool {
 		}
 	}
 	return e.globalNonNil[g]
+}
+
+// constGlobal describes a package-level variable whose initial value is a
+// literal (byte/int slice literal, string or integer constant) assigned once
+// in the package init function and never stored to again in first-party code.
+type constGlobal struct {
+	elems []int64 // slice literal contents
+	isSl  bool
+	elemT string
+	str   *string
+	num   *int64
+}
+
+func (e *Engine) globalConst(g *ssa.Global) *constGlobal {
+	if e.globalConsts == nil {
+		e.globalConsts = map[*ssa.Global]*constGlobal{}
+		stores := map[*ssa.Global]int{}
+		cand := map[*ssa.Global]*ssa.Store{}
+		for _, f := range e.funcsByKey {
+			if f.Blocks == nil || !isFirstParty(f) {
+				continue
+			}
+			for _, b := range f.Blocks {
+				for _, in := range b.Instrs {
+					st, ok := in.(*ssa.Store)
+					if !ok {
+						continue
+					}
+					gl, ok := st.Addr.(*ssa.Global)
+					if !ok {
+						continue
+					}
+					stores[gl]++
+					if f.Name() == "init" {
+						cand[gl] = st
+					}
+				}
+			}
+		}
+		for gl, st := range cand {
+			if stores[gl] != 1 {
+				continue
+			}
+			val := st.Val
+			// NaiveForm routes composite literals through a local cell: t = *cell where cell has one store
+			if ld, ok := val.(*ssa.UnOp); ok {
+				if cell, ok := ld.X.(*ssa.Alloc); ok {
+					var only *ssa.Store
+					n := 0
+					for _, ref := range *cell.Referrers() {
+						if s2, ok := ref.(*ssa.Store); ok && s2.Addr == cell {
+							only = s2
+							n++
+						}
+					}
+					if n == 1 {
+						val = only.Val
+					}
+				}
+			}
+			switch v := val.(type) {
+			case *ssa.Const:
+				if v.Value == nil {
+					continue
+				}
+				if c, ok := constInt64(v); ok {
+					e.globalConsts[gl] = &constGlobal{num: &c}
+				}
+			case *ssa.Slice:
+				al, ok := v.X.(*ssa.Alloc)
+				if !ok || v.Low != nil || v.High != nil {
+					continue
+				}
+				arr, ok := al.Type().Underlying().(*types.Pointer).Elem().Underlying().(*types.Array)
+				if !ok {
+					continue
+				}
+				eb, ok := arr.Elem().Underlying().(*types.Basic)
+				if !ok || eb.Info()&types.IsInteger == 0 {
+					continue
+				}
+				elems := make([]int64, arr.Len())
+				okAll := true
+				for _, ref := range *al.Referrers() {
+					ia, ok := ref.(*ssa.IndexAddr)
+					if !ok {
+						continue
+					}
+					ic, ok := ia.Index.(*ssa.Const)
+					if !ok {
+						okAll = false
+						break
+					}
+					idx, _ := constInt64(ic)
+					for _, r2 := range *ia.Referrers() {
+						if s2, ok := r2.(*ssa.Store); ok {
+							if cv, ok := s2.Val.(*ssa.Const); ok {
+								if n, ok := constInt64(cv); ok && idx >= 0 && idx < int64(len(elems)) {
+									elems[idx] = n
+									continue
+								}
+							}
+							okAll = false
+						}
+					}
+				}
+				if okAll {
+					e.globalConsts[gl] = &constGlobal{elems: elems, isSl: true, elemT: eb.Name()}
+				}
+			}
+		}
+	}
+	return e.globalConsts[g]
+}
+
+func constInt64(c *ssa.Const) (int64, bool) {
+	if c.Value == nil {
+		return 0, true
+	}
+	if b, ok := c.Type().Underlying().(*types.Basic); ok && b.Info()&types.IsInteger != 0 {
+		return c.Int64(), true
+	}
+	return 0, false
+}
+
+// globalFacts returns facts about the initial value term t of global g (to be assumed on load).
+func (e *Engine) globalFacts(s *State, g *ssa.Global, t Term, elem types.Type) []Term {
+	cg := e.globalConst(g)
+	if cg == nil {
+		return nil
+	}
+	var out []Term
+	if cg.num != nil && t.Sort == SInt {
+		out = append(out, Eq(t, IntLit(*cg.num)))
+	}
+	if cg.isSl && t.Sort == SSlice {
+		st, ok := elem.Underlying().(*types.Slice)
+		if !ok {
+			return nil
+		}
+		key, sort := e.memKey(st.Elem())
+		h := s.heapGet(key, sort)
+		n := int64(len(cg.elems))
+		out = append(out, Eq(App("s-len", SInt, t), IntLit(n)), Ge(App("s-cap", SInt, t), IntLit(n)), Lt(App("s-base", SInt, t), IntLit(0)))
+		arr := Select(h, App("s-base", SInt, t))
+		for i, v := range cg.elems {
+			out = append(out, Eq(Select(arr, Add(App("s-off", SInt, t), IntLit(int64(i)))), IntLit(v)))
+		}
+		e.abstract("package-level literal " + g.Name() + " assumed never modified after init (single store found)")
+	}
+	return out
 }
